@@ -76,6 +76,11 @@ def cases(tier):
                 continue
             out.append({'fn': 'run_lifecycle', 'id': f'n{n}/{flaw}', 'params': {'n': n, 'flaw': flaw}})
     out.append({'fn': 'run_shared_io', 'id': 'shared-io', 'params': {}})
+    # two attachments per module (out-degree 2): a module reached through paths of different length
+    n2 = 4 if tier == 'thorough' else 3
+    for a in range(n2 + 1):
+        for b in range(n2 + 1):
+            out.append({'fn': 'run_two_attachments', 'id': f'two-attachments/n{n2}/m0-{a}-{b}', 'params': {'n': n2, 'a0': a, 'b0': b}})
     return out
 
 
@@ -272,6 +277,12 @@ def run_lifecycle(env, p):
             return
     finally:
         threading.Event.wait = orig_wait
+    # also in a rejected configuration nothing is initialised twice (a cyclic attachment is found by running into it again)
+    if not cyclic():
+        for nm in names:
+            for phase in ('early', 'init-begin'):
+                cnt = len([e for e in log if e[0] == phase and e[1] == nm])
+                env.check(cnt <= 1, K + '/initialised-more-than-once', [nm, phase, cnt])
     if bad:
         env.note('rejected')
         env.check(not ready, K + '/bad-configuration-accepted', [targets, flaw])
@@ -404,3 +415,118 @@ def run_shared_io(env, p):
         env.fail(K + '/shutdown-raised/' + type(e).__name__, repr(e))
     for t in REQUIRED_TAGS:
         env.note(t)
+
+
+def run_two_attachments(env, p):
+    """every module may attach two others: initialisation before use and shutdown order (users first) along every edge"""
+    from frappy.core import Readable, Parameter, FloatRange, Attached
+    n = p['n']
+    w = World()
+    w.env = env
+    w.log = []
+    log = w.log
+
+    class Mx(Readable):
+        att = Attached(mandatory=False)
+        att2 = Attached(mandatory=False)
+        enablePoll = False
+
+        def earlyInit(self):
+            log.append(('early', self.name))
+            super().earlyInit()
+
+        def initModule(self):
+            log.append(('init-begin', self.name))
+            for a in (self.att, self.att2):
+                if a is not None:
+                    log.append(('sees', self.name, a.name, a.initModuleDone))
+            super().initModule()
+            log.append(('init-end', self.name))
+
+        def startModule(self, start_events):
+            log.append(('start', self.name))
+            super().startModule(start_events)
+
+        def shutdownModule(self):
+            log.append(('shutdown', self.name))
+
+    names = [f'm{i}' for i in range(n)]
+    edges = {}
+    for i, nm in enumerate(names):
+        a = p['a0'] if i == 0 else env.choice(f'att{i}', n + 1)
+        b = p['b0'] if i == 0 else env.choice(f'att2{i}', n + 1)
+        edges[nm] = [names[t] if t < n else '' for t in (a, b)]
+    perms = list(itertools.permutations(range(n)))
+    order = perms[env.choice('order', len(perms))]
+    cfg = {}
+    for i in order:
+        nm = names[i]
+        c = {'cls': Mx, 'description': nm}
+        if edges[nm][0]:
+            c['att'] = edges[nm][0]
+        if edges[nm][1]:
+            c['att2'] = edges[nm][1]
+        cfg[nm] = c
+    srv = build_server(env, w, cfg)
+    K = 'C15/two-attachments'
+
+    def cyclic():
+        state = {}
+
+        def visit(u):
+            if state.get(u) == 1:
+                return True
+            if state.get(u) == 2:
+                return False
+            state[u] = 1
+            for v in edges[u]:
+                if v and visit(v):
+                    return True
+            state[u] = 2
+            return False
+        return any(visit(u) for u in names)
+    bad = cyclic()
+    ready = False
+    try:
+        srv._processCfg()
+        ready = True
+    except SystemExit:
+        pass
+    except RecursionError as e:
+        env.fail(K + '/unbounded-recursion', repr(e)[:80])
+        return
+    except Exception as e:
+        env.fail(K + '/processCfg-raised/' + type(e).__name__, repr(e)[:200])
+        return
+    if not bad:
+        for nm in names:
+            for phase in ('early', 'init-begin'):
+                cnt = len([e for e in log if e[0] == phase and e[1] == nm])
+                env.check(cnt <= 1, K + '/initialised-more-than-once', [nm, phase, cnt])
+    if bad:
+        env.note('rejected')
+        env.check(not ready, K + '/cyclic-configuration-accepted', edges)
+        env.check(bool(srv.secnode.errors), K + '/no-error-reported')
+        return
+    env.note('started')
+    if not env.check(ready, K + '/valid-configuration-rejected', [edges, srv.secnode.errors[:3]]):
+        return
+    for nm in names:
+        seq = [e[0] for e in log if e[0] in ('early', 'init-begin', 'init-end', 'start') and e[1] == nm]
+        env.check(seq == ['early', 'init-begin', 'init-end', 'start'], K + '/lifecycle-order', [nm, seq])
+    for e in log:
+        if e[0] == 'sees':
+            env.check(e[3] is True, K + '/user-sees-uninitialised-attachment', e[1:3])
+    n0 = len(log)
+    try:
+        srv.secnode.shutdown_modules()
+    except Exception as e:
+        env.fail(K + '/shutdown-raised/' + type(e).__name__, repr(e))
+        return
+    env.note('shutdown')
+    sd = [e[1] for e in log[n0:] if e[0] == 'shutdown']
+    env.check(sorted(sd) == sorted(names), K + '/shutdown-not-exactly-once', sd)
+    for nm in names:
+        for t in edges[nm]:
+            if t and t != nm and nm in sd and t in sd:
+                env.check(sd.index(nm) < sd.index(t), K + '/provider-shut-down-before-user', [nm, t, sd, edges])
